@@ -432,7 +432,7 @@ declspecs(struct scope *s, enum storageclass *sc, enum funcspec *fs, int *align)
 		case TTYPEOF_UNQUAL:
 			next();
 			expect(TLPAREN, "after 'typeof'");
-			t = typename(s, &tq, &typeofexpr);
+			t = typename(s, op == TTYPEOF ? &tq : NULL, &typeofexpr);
 			if (!t) {
 				e = expr(s);
 				if (e->decayed)
